@@ -28,6 +28,7 @@ type Req struct {
 	Cookie     string        `json:"cookie,omitempty"`      // "" = the agent's jar | none | forged | other
 	StoreFault string        `json:"store_fault,omitempty"` // get-error | get-error-stale | new-error | lost | truncated
 	API        string        `json:"api,omitempty"`         // "" = HTTP | accept | krb5token | neginit | negresp
+	Overlap    bool          `json:"overlap,omitempty"`     // another user's complete request is served while this one waits in its session look-up
 }
 
 type Tape struct {
@@ -37,6 +38,8 @@ type Tape struct {
 	Logger     bool                  `json:"logger"`
 	Settings   world.ServiceSettings `json:"settings"`
 	Reqs       []Req                 `json:"reqs"`
+	// StoreKeepsSlice: the session store keeps the slice it is handed (no copy)
+	StoreKeepsSlice bool `json:"store_keeps_slice,omitempty"`
 }
 
 var framings = []string{"init-krb5", "init-ms", "init-ntlm-first", "init-empty", "init-foreign", "init-nomechtoken", "resp", "resp-nomech", "resp-foreign", "resp-notoken-completed", "resp-notoken-incomplete", "raw"}
@@ -51,7 +54,7 @@ func Meta() core.Meta {
 		Rule:       "case = one run: a handler wrapped by SPNEGOKRB5Authenticate (with or without session manager and logger, service settings from the tape) receives 1-8 HTTP requests from 1-3 user agents: no header, foreign schemes, garbage, and Negotiate tokens in every framing (NegTokenInit with KRB5 / MS-legacy / NTLM-first / empty / foreign mech lists, without mech token, NegTokenResp, raw KRB5) carrying a valid or defective AP-REQ, an AP-REP or a KRB-ERROR, optionally damaged in transit (base64, truncation, byte substitution, scheme), replayed, with own / forged / stolen / no cookies, while the session store fails (get error, new error, lost or truncated value) and tickets expire; a share of runs calls the verification APIs directly; distinct = distinct (settings, per-request (header kind, framing, mech, defects, mangle, cookie, store fault) and outcome) sequence; non-trivial = some request carried a token or a cookie",
 		SweepQuick: nsweep, SweepThorough: nsweep * len(etypes),
 		SeededQuick: 4000, SeededThorough: 300000,
-		WorkloadProbes: []string{"valid-token", "defective-token", "krb-error-mech-token", "ap-rep-mech-token", "empty-mech-list", "foreign-mech-list", "header-damaged-in-transit", "header-replayed", "own-cookie", "forged-cookie", "store-get-failed", "store-new-failed", "stored-value-lost-or-truncated", "ticket-expired-between-requests", "api-called-directly"},
+		WorkloadProbes: []string{"valid-token", "defective-token", "krb-error-mech-token", "ap-rep-mech-token", "empty-mech-list", "foreign-mech-list", "header-damaged-in-transit", "header-replayed", "own-cookie", "forged-cookie", "store-get-failed", "store-new-failed", "stored-value-lost-or-truncated", "ticket-expired-between-requests", "api-called-directly", "overlapping-request-served"},
 		Components: map[string]string{
 			"spnego.SPNEGOKRB5Authenticate, getAuthorizationNegotiationHeaderAsSPNEGOToken, SPNEGOToken/KRB5Token/NegTokenInit/NegTokenResp Unmarshal+Verify, SPNEGO.AcceptSecContext, service.VerifyAPREQ, credentials Marshal/Unmarshal, goidentity context": "real",
 			"net/http (request, header canonicalisation), httptest.ResponseRecorder, encoding/gob, encoding/base64":                                                                                                                                            "real",
@@ -135,6 +138,7 @@ func Gen(caseID, tier string) (json.RawMessage, error) {
 		tp.Settings.KtPrinc = r.Pick("HTTP/host.sim.test", "HTTP/other.sim.test")
 	}
 	tp.Settings.DecodePAC = r.Chance(1, 2)
+	tp.StoreKeepsSlice = tp.SessionMgr && r.Chance(1, 3)
 	et := etypes[r.Intn(len(etypes))]
 	nr := r.Range(1, 8)
 	apiRun := r.Chance(1, 6)
@@ -181,6 +185,7 @@ func Gen(caseID, tier string) (json.RawMessage, error) {
 			}
 		}
 		if tp.SessionMgr {
+			rq.Overlap = r.Chance(1, 4)
 			rq.Cookie = r.Pick("", "", "", "none", "forged", "other")
 			if r.Chance(1, 5) {
 				rq.StoreFault = r.Pick("get-error", "get-error-stale", "get-error-stale", "new-error", "lost", "truncated")
